@@ -25,6 +25,7 @@ EXPLANATION = (
     "except at two program points (negative witnesses proved); this run compares the model's prediction with the "
     "real ledger at every cut position and evaluates 'ledger empty' on the implementation alone."
 )
+GENERATED_OBLIGATIONS = ["Server.replyWriterFinishesInFinally / replyWriterDrainsOnFailure / replySkipsDeadWriter (response_writer and connection.response: join_cannot_hang)"]
 ASSUMPTIONS = [
     "in-memory transports stand in for sockets (close requested = released; real half-close behaviour not modelled)",
     "backend and listener delays are finite: calls held at a gate are let go after the cut",
